@@ -704,10 +704,8 @@ def get_referent_name(random_reference):
     """What does this random_reference refer to?"""
     args, kwargs = random_reference.args, random_reference.kwargs
     assert not (args and kwargs)
-    if args:
-        ret = args[0].definition
-    elif kwargs:
-        ret = kwargs["to"].definition
+    target = args[0] if args else kwargs.get("to")
+    ret = getattr(target, "definition", None)
     if not isinstance(ret, str):
         raise DataGenSyntaxError(
             f"random_reference should only refer to a name, not {ret}"
